@@ -16,12 +16,25 @@ def run(chk):
     behaviours = core.tlc_simulate('Session', 'MC_Session_sim.cfg', num=12 if q else 150, depth=8, seed=chk.seed + 1)
     # second stream restricted to the trainers with an iterative numeric solver (Bingham), default concentration limit
     behaviours += core.tlc_simulate('Session', 'MC_Session_simb.cfg', num=16 if q else 100, depth=8, seed=chk.seed + 2)
+    # third stream: Watson-type trainers (lazily built inverse tables) with several concentration limits at one dimension
+    behaviours += core.tlc_simulate('Session', 'MC_Session_simw.cfg', num=12 if q else 80, depth=8, seed=chk.seed + 3)
     cases = []
     for b, beh in enumerate(behaviours):
         hist = beh[-1][1]['hist']
         if hist:
             cases.append(dict(t='behaviour', bid=b + 1, hist=hist))
     recs = core.run_driver('session', tier=chk.tier, seed=chk.seed, cases=cases)
+    # the same fits in a second, fresh interpreter process, fresh trainers, reverse order of first occurrence: state kept
+    # anywhere in the process (module-level tables, caches) makes the two processes disagree on some key
+    keys = []
+    for r in recs:
+        if r['kind'] == 'fit' and r.get('accepted') and r['argdigest'] not in keys:
+            keys.append(r['argdigest'])
+    ref = core.run_driver('session', tier=chk.tier, seed=chk.seed, cases=[dict(t='ref', keys=keys[::-1])])
+    digests = ref[0]['digests'] if ref else {}
+    for r in recs:
+        if r['kind'] == 'fit' and r.get('accepted'):
+            r['d_proc'] = digests.get(r['argdigest'], '')
     chk.validate('session-behaviours', 'Trace_Session', 'Trace_Session.cfg', recs, driver='session', jobs=8)
     recs = core.run_driver('session', tier=chk.tier, seed=chk.seed, args=dict(what='calls'), timeout=3000)
     chk.validate('public-calls', 'Trace_Session', 'Trace_Session.cfg', recs, driver='session', jobs=8)
